@@ -152,6 +152,13 @@ protected:
     dlclose(sandbox);
 #endif
     sandbox = nullptr;
+    // callbacks whose owners outlive the sandbox must not stay reachable if the
+    // sandbox object is created again
+    RLBOX_ACQUIRE_UNIQUE_GUARD(lock, callback_mutex);
+    for (uint32_t i = 0; i < MAX_CALLBACKS; i++) {
+      callback_unique_keys[i] = nullptr;
+      callbacks[i] = nullptr;
+    }
   }
 
   template<typename T>
